@@ -14,6 +14,14 @@ CLAIMED = {
              text="Theorems C12_normal_to_simple, C12_normal_shape, C12_fmap_is_rename (Props/C12.v) for every raw tree without fake call-shaped dicts (premise measured per run); model re-validated against the implementation under simple_op/normal_op/fmap on every run; "
                   "oracle: to_simple(parse(calls=normal_op)) == parse(), normal-form shape, parse(fmap=m) == rename for single renames and swaps, crossed with null and all_columns",
              design="6/C12", note="Trusted: Coq kernel + vm_compute; the reading that to_simple puts the operator key last (dict equality is order-insensitive in Python)"),
+ "C01": dict(technique="Coq proof (T1_reduce / parse_tokens) over a model of the engine's infix reducer and to_json_operator, instantiated with KNOWN_OPS / spellings / names regenerated from /repo; obligations by vm_compute against the reference order; differential execution model vs parser; SQLite value vectors validate the spec",
+             text="Theorem C01_parse_is_tree (Props/C01.v): every parenthesised operator tree of any depth whose parenthesis-free regions obey the library's edge rule is read and reduced to exactly its own tree (nesting, left association, n-ary flattening, operand order, names), for the regenerated table; C01_names / C01_flatten_set compare the regenerated names and flattening set with Spec/RefOrder.v; "
+                  "the obligation that every (parent, slot, child) where the reference order omits parentheses is accepted by the library's levels is evaluated on every run and must be covered by the listed findings; the model is differential-tested against parse on thousands of token strings (including garbage)",
+             design="6/C01", note="Trusted: Coq kernel + vm_compute; extraction of the infix table from the live parser (harness/extract_tables.py); the abstract token/atom encoding (atoms are identifiers and NULL; calls/CASE/CAST are opaque atoms); Spec/RefOrder.v as the reading of the reference order (local precedence rule)"),
+ "C04": dict(technique="Coq proof format_then_parse (formatter model -> parenthesised token tree -> reader/reducer), generic in tables regenerated from /repo (precedence, KNOWN_OPS, every renderer's behaviour probed over the finite precedence domain); exclusion set computed by vm_compute; differential execution of formatter and parser models",
+             text="Theorem C04_format_then_parse (Props/C04.v): for every tree in normal form over the formatter's infix vocabulary, of any depth, whose edges pass the decidable check edges_ok', and every context precedence, parsing the formatter's tokens returns exactly the tree. The set of (parent, slot, child) triples violating the edge condition is recomputed from the tables on every run and must be covered by the listed findings; "
+                  "a new triple is concretised (depth-2 tree and all one-level contexts in 5 clause positions) and replayed. Model formatter tokens and model parser are compared with the implementation on every run (exhaustive depth 2, random to depth 5)",
+             design="6/C04", note="Trusted: Coq kernel + vm_compute; behaviour probing of Formatter methods with a recording dispatch (assumes a renderer's parenthesisation depends only on the context precedence); atoms abstract; SQLite value comparison for C04 is not built (structural round trip only)"),
 }
 PENDING_REASON = "check not built yet in this session (planned, see DESIGN.md section 8); not claimed until its theorem and tie exist"
 ALL = ["C%02d" % i for i in range(1, 21)]
